@@ -53,56 +53,108 @@ def run(ctx, rep):
             oka = a[0] == 'a2' and 'a3.values' in a[1] and 'map(' in a[1] and 'closure' in a[1] and a[2].startswith('a1.config.n_columns') is False
             oka = a[0] == 'a2' and 'a3.values' in a[1] and 'map(' in a[1] and 'closure' in a[1]
             flag = a[3]
-            okf = flag.startswith('ge(') and 'n_verifier_friendly_commitment_layers' in flag and 'add(' in flag and 'height' in flag and '1' in flag
+            okf = all(ok for k_, ok, _, _ in common.friendly_selection(db) if k_ == 'table-flag')
             rep.ob('C05.rows', 'friendly-flag', okf, f'is_bottom_layer_verifier_friendly = {flag[:160]}', td.loc(t['line']), cfg)
             rep.ob('C05.montgomery', 'argument', oka, f'generate_vector_queries(queries={a[0]}, values={a[1][:110]}, ..)', td.loc(t['line']), cfg)
     # (c) row selection
     gv = db.fn(GEN_VECTOR_QUERIES, 'C05')
-    Tg = exprtree.Trees(db, gv)
-    fl = dataflow.Flow(db, gv)
-    # Query construction
-    qa = None
-    for b in gv.blocks:
-        for s in b['stmts']:
-            if s['k'] == 'assign' and s['rv'].get('k') == 'agg' and s['rv'].get('adt', '').endswith('types::Query'):
-                qa = s['rv']
-    okq = False
-    if qa:
-        idx = exprtree.show(Tg.operand(qa['ops'][qa['fields'].index('index')]))
-        okq = idx.startswith('a1[')
-        rep.ob('C05.rows', 'query-index', okq, f'Query.index = {idx}', gv.loc(), cfg)
-        vl = fl.operand_leaves(qa['ops'][qa['fields'].index('value')])
-        rep.ob('C05.rows', 'query-value-sources', any(x.startswith('a2[*]') for x in vl) and any(x.startswith('call:starknet_crypto::poseidon_hash') for x in vl)
-               and any('Digest' in x or 'finalize' in x for x in vl), f'Query.value leaves: {sorted(x for x in vl if not x.startswith("op:"))[:6]}', gv.loc(), cfg)
-    # single-column bypass: a comparison of n_columns with 1 selects values[i]
-    okb = False
-    for b in gv.blocks:
-        t = b['term']
-        for s in b['stmts']:
-            if s['k'] == 'assign' and s['rv']['k'] == 'bin' and s['rv']['op'] == 'Eq':
-                a, c = Tg.operand(s['rv']['a']), Tg.operand(s['rv']['b'])
-                if {a, c} == {('arg', 3), ('val', 1)}:
-                    okb = True
-    rep.ob('C05.rows', 'single-column-bypass', okb, 'rows of single-column tables are used unhashed (n_columns == 1 test)', gv.loc(), cfg)
-    # slices
+    rows(db, rep, gv, cfg)
+    hashsites.check_site(ctx, rep, 'C05.hash', GEN_VECTOR_QUERIES, 'row hash')
+
+
+def _eq_tests(fn, T):
+    for b in fn.blocks:
+        for st in b['stmts']:
+            if st['k'] == 'assign' and st['rv']['k'] == 'bin' and st['rv']['op'] == 'Eq':
+                yield T.operand(st['rv']['a']), T.operand(st['rv']['b'])
+
+
+def rows(db, rep, gv, cfg):
+    """generate_vector_queries(queries=a1, values=a2, n_columns=a3, friendly=a4): Query i = (queries[i], H(row i)) with
+    row i = values[i*n_columns .. (i+1)*n_columns]. Two ways of writing the row walk are recognised:
+      index form : the Query is built in the function body, index = queries[..], rows are values[mul(..a3..) .. mul(add(..)..a3..)]
+      chunk form : the Query is built in the closure mapped over zip(iter(queries), values.chunks_exact(n_columns)) (or
+                   .chunks), index = the first component of the closure's item and the row is its second component
+    Anything else cannot be decided by this rule and is reported (fail closed)."""
+    bs = common.bodies(db, gv)
+    Ts = {f.path: exprtree.Trees(db, f) for f in bs}
+    Tg = Ts[gv.path]
+    qsite = None
+    for f in bs:
+        for b in f.blocks:
+            for st in b['stmts']:
+                if st['k'] == 'assign' and st['rv'].get('k') == 'agg' and st['rv'].get('adt', '').endswith('types::Query'):
+                    qsite = (f, st['rv'])
+    if qsite is None:
+        rep.ob('C05.rows', 'query-index', False, 'no Query is constructed in generate_vector_queries or its closures', gv.loc(), cfg)
+        return
+    qf, qa = qsite
+    Tq = Ts[qf.path]
+    flq = dataflow.Flow(db, qf)
+    idx_t = Tq.operand(qa['ops'][qa['fields'].index('index')])
+    idx = exprtree.show(idx_t)
+    vl = flq.operand_leaves(qa['ops'][qa['fields'].index('value')])
+    # index ranges taken of `values` in the function body
     sl = []
     for bi, t in gv.calls():
         if t['f'].get('name') == 'index' and len(t['args']) == 2:
             r_ = Tg.operand(t['args'][1])
             if isinstance(r_, tuple) and r_[0] == 'agg' and r_[1].startswith('core::ops::range::Range'):
-                s_, e_ = exprtree.show(r_[3]['start']), exprtree.show(r_[3]['end'])
-                base = exprtree.show(Tg.operand(t['args'][0]))
-                if base == 'a2':
-                    sl.append((s_, e_))
-    good = [x for x in sl if x[0].startswith('mul(') and 'a3' in x[0] and x[1].startswith('mul(') and 'add(' in x[1] and 'a3' in x[1]]
-    rep.ob('C05.rows', 'row-slices', len(good) >= 2 and len(good) == len(sl), f'hashed slices of values: {sl}', gv.loc(), cfg)
-    pm = [t for _, t in gv.calls() if (t['f'].get('resolved') or '').endswith('poseidon_hash_many')]
-    rep.ob('C05.rows', 'friendly-row-hash', len(pm) == 1, f'{len(pm)} poseidon_hash_many call(s)', gv.loc(), cfg)
-    # masked: closure flat_map to_bytes_be
+                if exprtree.show(Tg.operand(t['args'][0])) == 'a2':
+                    sl.append((exprtree.show(r_[3]['start']), exprtree.show(r_[3]['end'])))
+    if qf is gv:
+        form = 'index'
+        okq = idx.startswith('a1[')
+        good = [x for x in sl if x[0].startswith('mul(') and 'a3' in x[0] and x[1].startswith('mul(') and 'add(' in x[1] and 'a3' in x[1]]
+        oks = len(good) >= 2 and len(good) == len(sl)
+        row_desc = f'hashed slices of values: {sl}'
+        row_leaf = lambda x: x.startswith('a2[*]')
+        is_row = lambda t: isinstance(t, tuple) and t[0] == 'proj' and t[1] == ('arg', 2)
+        ncols = lambda t: t == ('arg', 3)
+    else:
+        form = 'chunk'
+        walk = None
+        for bi, t in gv.calls():
+            if t['f'].get('name') == 'map' and len(t['args']) == 2:
+                recv, cl = Tg.operand(t['args'][0]), Tg.operand(t['args'][1])
+                if isinstance(cl, tuple) and cl[0] == 'closure' and cl[1] == qf.path:
+                    walk = recv
+        okw = isinstance(walk, tuple) and walk[0] == 'zip' and len(walk) == 3 and \
+            walk[1] in (('iter', ('arg', 1)), ('arg', 1)) and isinstance(walk[2], tuple) and \
+            walk[2][0] in ('chunks_exact', 'chunks') and walk[2][1:] == (('arg', 2), ('arg', 3))
+        okq = okw and idx_t == ('proj', ('arg', 2), '0')
+        oks = okw and not sl
+        row_desc = f'rows walked as {exprtree.show(walk)[:120]}; other slices of values: {sl}'
+        row_leaf = lambda x: x.startswith('a2.1')
+        is_row = lambda t: t == ('proj', ('arg', 2), '1')
+        ups = common.upvars(db, gv, qf.path)
+        ncols = lambda t: isinstance(t, tuple) and t[0] == 'proj' and t[1] == ('arg', 1) and str(t[2]).isdigit() and \
+            int(t[2]) < len(ups) and ups[int(t[2])] == ('arg', 3)
+    rep.note('row_walk_form', form)
+    rep.ob('C05.rows', 'query-index', okq, f'Query.index = {idx} ({form} form)', qf.loc(), cfg)
+    rep.ob('C05.rows', 'query-value-sources', any(row_leaf(x) for x in vl) and any(x.startswith('call:starknet_crypto::poseidon_hash') for x in vl)
+           and any('Digest' in x or 'finalize' in x for x in vl), f'Query.value leaves: {sorted(x for x in vl if not x.startswith("op:"))[:6]}', qf.loc(), cfg)
+    # single-column bypass: a comparison of n_columns with 1 selects the bare cell
+    okb = any((ncols(a) and c == ('val', 1)) or (ncols(c) and a == ('val', 1)) for a, c in _eq_tests(qf, Tq))
+    rep.ob('C05.rows', 'single-column-bypass', okb, 'rows of single-column tables are used unhashed (n_columns == 1 test)', qf.loc(), cfg)
+    rep.ob('C05.rows', 'row-slices', oks, row_desc, gv.loc(), cfg)
+    pm = [(f, t) for f in bs for _, t in f.calls() if (t['f'].get('resolved') or '').endswith('poseidon_hash_many')]
+    okp = len(pm) == 1 and pm[0][0] is qf and is_row(Tq.operand(pm[0][1]['args'][0]))
+    rep.ob('C05.rows', 'friendly-row-hash', okp, f'{len(pm)} poseidon_hash_many call(s); argument ' +
+           (exprtree.show(Ts[pm[0][0].path].operand(pm[0][1]['args'][0]))[:80] if pm else '-'), gv.loc(), cfg)
+    # masked: a closure inside the body turns every cell into its big-endian bytes, in order
     okm = False
-    for cp in db.closure_creations(gv):
-        cf = db.fns[cp]
-        okm = okm or any(t['f'].get('name') == 'to_bytes_be' for _, t in cf.calls())
-    bad = [t['f'].get('name') for _, t in gv.calls() if t['f'].get('name') in ('to_bytes_le', 'reverse', 'rev', 'sort', 'to_le_bytes')]
-    rep.ob('C05.rows', 'masked-preimage', okm and not bad, f'masked row hash consumes to_bytes_be of every cell in order (reordering calls: {bad})', gv.loc(), cfg)
-    hashsites.check_site(ctx, rep, 'C05.hash', GEN_VECTOR_QUERIES, 'row hash')
+    fm = ''
+    for _, t in qf.calls():
+        if t['f'].get('name') in ('flat_map', 'map') and len(t['args']) == 2:
+            recv, cl = Tq.operand(t['args'][0]), Tq.operand(t['args'][1])
+            if isinstance(cl, tuple) and cl[0] == 'closure' and cl[1] in db.fns:
+                cf = db.fns[cl[1]]
+                Tc = exprtree.Trees(db, cf)
+                be = [Tc.operand(t2['args'][0]) for _, t2 in cf.calls() if t2['f'].get('name') == 'to_bytes_be' and t2.get('args')]
+                if be and all(x == ('arg', 2) for x in be):
+                    src = recv[1] if isinstance(recv, tuple) and recv[0] in ('iter', 'into_iter') and len(recv) == 2 else recv
+                    fm = exprtree.show(recv)[:60]
+                    okm = okm or is_row(src)
+    bad = [t['f'].get('name') for f in bs for _, t in f.calls() if t['f'].get('name') in ('to_bytes_le', 'reverse', 'rev', 'sort', 'to_le_bytes')]
+    rep.ob('C05.rows', 'masked-preimage', okm and not bad, f'masked row hash consumes to_bytes_be of every cell of the row in order (cells from {fm or "?"}; reordering calls: {bad})', gv.loc(), cfg)
